@@ -72,13 +72,26 @@ def write_if_changed(path, data):
     except OSError:
         pass
     os.makedirs(os.path.dirname(path), exist_ok=True)
-    tmp = path + '.tmp%d' % os.getpid()
+    tmp = path + '.tmp%d.%d' % (os.getpid(), __import__('threading').get_ident())
     with open(tmp, 'wb') as f:
         f.write(data)
     os.replace(tmp, path)
 
 
+_stage_lock = __import__('threading').Lock()
+_staged = None
+
+
 def stage():
+    """Staging happens once per driver process (threads share the result)."""
+    global _staged
+    with _stage_lock:
+        if _staged is None:
+            _staged = _stage()
+        return _staged
+
+
+def _stage():
     """Copy the non-test sources of /repo/internal/... into modules named after the
     import paths those sources use, and write the -modfile that points at REPO."""
     base = os.path.join(H, '.stage', KEY)
